@@ -2,7 +2,7 @@
 import ast
 
 from .model import AnalysisError, node_src, is_self_attr, call_name
-from .paths import Interp, Env, ORD, ASYNC, fmt_trace, Ctx, Domain, Exc, NONE, TOP
+from .paths import Interp, Env, ORD, ASYNC, fmt_trace, Ctx, Domain, Exc, NONE, TOP, Const
 from . import exchange
 from .report import walk_no_nested
 
@@ -166,8 +166,66 @@ def run(chk):
     from . import rules_C04
 
     report.include_rules(chk, r6, rules_C04, ("C04.R1",), "a store command announces the length of exactly the block it sends: otherwise the server parses the surplus as commands and answers them, and those replies are read by later calls")
+    # ------------------------------------------------------------------ R8 framing of a raw command's reply
+    framing_rows(chk)
     chk.assume("Client.close does not raise ordinary exceptions (C06.R6)")
     chk.assume("the server answers each command with the number of reply lines the protocol defines")
+
+
+def framing_rows(chk, rule_id="C01.R8"):
+    """raw_command(command, end_tokens): the reply is read by exactly one reader call, and that reader ends the reply at
+    the caller's end token (what each reader kind does with a terminator or a size is C03.R6)."""
+    from . import seghist
+    from .rules_C05 import script_eval
+
+    prog = chk.prog
+    r8 = chk.rule(rule_id, "the reply to raw_command is read once, by a reader that ends it at the caller's end token (bytes or str; CR LF when none is given): the bytes of the reply are consumed up to exactly that token and nothing of the next reply")
+    f = prog.method("Client", "raw_command", required=False)
+    if f is None or f.param("end_tokens") is None:
+        r8.undecided("Client.raw_command:signature", "Client.raw_command(command, end_tokens) was not found")
+        return
+    mod = prog.module(exchange.READERS_BASE)
+    n = 0
+    for given, want in ((None, b"\r\n"), (b"\r\n", b"\r\n"), ("\r\n", b"\r\n"), (b"\n\r\nEND\r\n", b"\n\r\nEND\r\n"), ("END\r\n", b"END\r\n"), (b"...", b"...")):
+        for cmd in (b"config get cluster", "verbosity 1"):
+            outs = script_eval(prog, "raw_command", (b"OK",), nkeys=0, full=True, bind={"command": cmd, "end_tokens": given})
+            n += 1
+            what = "raw_command(%r, end_tokens=%s)" % (cmd, "not given" if given is None else repr(given))
+            key = "Client.raw_command:framing"
+            rets = outs.of("ret")
+            if not rets:
+                r8.fail(key, "%s does not return the reply (%s)" % (what, sorted({str(e.cls) for s_, e, t in outs.of("exc")})), fn=f)
+                continue
+            bad, undec = [], []
+            for s_, v, t in rets:
+                reads = s_.get("#reads", ())
+                if s_.get("#imprecise", 0):
+                    undec.append("a path the analysis does not follow exactly")
+                    continue
+                if len(reads) != 1:
+                    bad.append("reads %d times" % len(reads))
+                    continue
+                rname, pos, kw = reads[0]
+                rf = mod.functions.get(rname)
+                kind, third = seghist.reader_kind(rf) if rf is not None else (None, None)
+                if kind == "line":
+                    tok = Const(b"\r\n")
+                elif kind == "token":
+                    tok = dict(kw).get(third, pos[0] if pos else dict(kw).get("#pos2"))
+                else:
+                    undec.append("the reply is read by %s, whose kind (%s) frames nothing" % (rname, kind))
+                    continue
+                if tok is None or not isinstance(tok, Const):
+                    undec.append("the end token handed to %s is not followed (%s)" % (rname, tok))
+                elif tok.v != want:
+                    bad.append("the reply is ended at %r by %s where the caller's end token is %r" % (tok.v, rname, want))
+            if bad:
+                r8.fail(key, "%s: %s - the reply is cut short (its rest is read by the next call as that call's reply) or the call waits for a token that never comes" % (what, "; ".join(sorted(set(bad)))), fn=f)
+            elif undec:
+                r8.undecided(key, "%s: %s" % (what, "; ".join(sorted(set(undec)))))
+            else:
+                r8.ok("%s: one read, ended at %r" % (what, want))
+    r8.floor("framing rows", n, 12)
 
 
 class _SendOnce(Domain):
